@@ -574,5 +574,319 @@ theorem readHashes_honest (P : Params H) (D : List Bytes) (S : Server) (stN : Li
     exact ⟨(htiles td.1 (List.of_mem_zip htd).1).1, hzip td htd⟩)
   exact ⟨hs, stn, rfl, hstn, hhs, hw2, hl1.trans hl2⟩
 
+/-- `TreeHash(m, thr)` through the tiles of a head of `D`, honest world -/
+theorem treeHashVia_honest (P : Params H) (D : List Bytes) (S : Server) (stN : List H) (hon : Honest P D S stN)
+    (w : World HState H) (hw : HW P D S stN w) (hname : w.c.name = S.v.name) (m n : Nat) (hm : m ≤ n) (hn : n ≤ D.length) :
+    (treeHashVia P (honestEnv S) w m ⟨n, rootAt P D n⟩).1 = .ok (rootAt P D m) ∧
+      HW P D S stN (treeHashVia P (honestEnv S) w m ⟨n, rootAt P D n⟩).2 ∧
+      HLow w (treeHashVia P (honestEnv S) w m ⟨n, rootAt P D n⟩).2 := by
+  have hN := hon.hN
+  generalize hr : treeHashVia P (honestEnv S) w m ⟨n, rootAt P D n⟩ = r
+  simp only [treeHashVia] at hr
+  by_cases h0 : (m == 0) = true
+  · rw [if_pos h0] at hr; subst hr
+    have : m = 0 := by simpa using h0
+    subst this
+    exact ⟨by rw [rootAt_zero], hw, HLow.refl w⟩
+  · rw [if_neg h0] at hr
+    have hm0 : m ≠ 0 := by simpa using h0
+    have h63 : (2:Nat) ^ 62 < 2 ^ 63 := by decide
+    obtain ⟨cs, hsub, _, hcov⟩ := Props.C09.subTreeIndex_spec 0 m (Nat.zero_le _) (TlogStore.aligned_zero m) (by omega)
+    rw [hsub] at hr; simp only at hr
+    have hidx : ∀ x ∈ cs.map (fun c => storedHashIndex c.1 c.2), x < storedHashIndex 0 n := by
+      intro x hx
+      obtain ⟨c, hc, rfl⟩ := List.mem_map.mp hx
+      have hb := TlogStore.cover_bound cs 0 m hcov c hc
+      rw [Tlog.storedHashIndex_zero_eq]
+      exact TileAuth.idx_lt_S n c.1 c.2 (by omega)
+    obtain ⟨hs, stn, h1, hstn, hmap, hw1, hl1⟩ := readHashes_honest P D S stN hon w hw hname n (by omega) hn _ hidx
+    rw [h1] at hr; simp only at hr; subst hr
+    refine ⟨?_, hw1, hl1⟩
+    have hlen : (D.take n).length = n := by rw [List.length_take]; exact Nat.min_eq_left hn
+    have h64 : (2:Nat) ^ 62 < 2 ^ 64 := by decide
+    have hth := Props.C09.treeHash_eq_mth P.leaf P.node P.empty (D.take n) (by rw [hlen]; omega) stn hstn m
+      (by rw [hlen]; exact hm) (by omega)
+    rw [treeHash_reader_congr P.node P.empty m _ (storeReader stn) (fun _ => some hs) hsub
+      (by simp only [storeReader]; exact hmap)] at hth
+    simp only
+    rw [hth, rootAt_take P D m n hm]
+    rfl
+
+/-- `checkTrees` of two heads of `D`, honest world: no fork, no error -/
+theorem checkTrees_honest (P : Params H) (D : List Bytes) (S : Server) (stN : List H) (hon : Honest P D S stN)
+    (w : World HState H) (hw : HW P D S stN w) (hname : w.c.name = S.v.name) (m n : Nat) (hm : m ≤ n) (hn : n ≤ D.length)
+    (o1 o2 : Bytes) :
+    (checkTrees P (honestEnv S) w ⟨m, rootAt P D m⟩ o1 ⟨n, rootAt P D n⟩ o2).1 = .ok () ∧
+      HW P D S stN (checkTrees P (honestEnv S) w ⟨m, rootAt P D m⟩ o1 ⟨n, rootAt P D n⟩ o2).2 ∧
+      HLow w (checkTrees P (honestEnv S) w ⟨m, rootAt P D m⟩ o1 ⟨n, rootAt P D n⟩ o2).2 := by
+  obtain ⟨h1, h2, h3⟩ := treeHashVia_honest P D S stN hon w hw hname m n hm hn
+  generalize hr : checkTrees P (honestEnv S) w ⟨m, rootAt P D m⟩ o1 ⟨n, rootAt P D n⟩ o2 = r
+  simp only [checkTrees, h1, if_true] at hr
+  subst hr
+  exact ⟨rfl, h2, h3⟩
+
+/-- frame of `mergeLatest` in the honest world -/
+structure HMid (w w' : World HState H) : Prop where
+  verifiers : w'.c.verifiers = w.c.verifiers
+  name : w'.c.name = w.c.name
+  record : w'.c.record = w.c.record
+  inited : w'.c.inited = w.c.inited
+  mono : w.c.latest.n ≤ w'.c.latest.n
+
+theorem HLow.mid' {w w' : World HState H} (l : HLow w w') : HMid w w' :=
+  ⟨l.verifiers, l.name, l.record, l.inited, by rw [l.latest]; exact Nat.le_refl _⟩
+
+theorem HMid.trans {w1 w2 w3 : World HState H} (a : HMid w1 w2) (b : HMid w2 w3) : HMid w1 w3 :=
+  ⟨b.verifiers.trans a.verifiers, b.name.trans a.name, b.record.trans a.record, b.inited.trans a.inited,
+   Nat.le_trans a.mono b.mono⟩
+
+theorem openTree_nil (P : Params H) (vs : List Note.Verifier) : ∀ hd, openTree P vs [] ≠ .ok hd := by
+  intro hd h
+  simp [openTree, Note.Open, Note.validMsg, Note.runesOf, Note.lastIndexOf, Note.sigSplit] at h
+
+theorem signed_ne_nil {P : Params H} {D : List Bytes} {S : Server} {msg : Bytes} {n : Nat} (h : Signed P D S msg n) :
+    msg.isEmpty = false := by
+  cases msg with
+  | nil => exact absurd h.1 (openTree_nil P _ _)
+  | cons x xs => rfl
+
+/-- `mergeLatestMem` of the empty message or a signed head of `D`, honest world -/
+theorem mergeLatestMem_honest (P : Params H) (D : List Bytes) (S : Server) (stN : List H) (hon : Honest P D S stN)
+    (w : World HState H) (hw : HW P D S stN w) (hname : w.c.name = S.v.name) (hvs : w.c.verifiers = [S.v])
+    (msg : Bytes) (hmsg : msg = [] ∨ ∃ m, Signed P D S msg m) :
+    ∃ wh, (mergeLatestMem P (honestEnv S) w msg).1 = .ok wh ∧
+      HW P D S stN (mergeLatestMem P (honestEnv S) w msg).2 ∧ HMid w (mergeLatestMem P (honestEnv S) w msg).2 ∧
+      (mergeLatestMem P (honestEnv S) w msg).2.s.latest = w.s.latest ∧
+      (∀ m, Signed P D S msg m → m ≤ (mergeLatestMem P (honestEnv S) w msg).2.c.latest.n) ∧
+      (wh = .past → (mergeLatestMem P (honestEnv S) w msg).2.c.latest.n ≠ 0) := by
+  obtain ⟨n, hn, hlat, hlm⟩ := hw.latest
+  generalize hr : mergeLatestMem P (honestEnv S) w msg = r
+  simp only [mergeLatestMem] at hr
+  rcases hmsg with hnil | ⟨m, hs⟩
+  · subst hnil
+    simp only [List.isEmpty_nil, if_true] at hr
+    subst hr
+    refine ⟨_, rfl, hw, (HLow.refl w).mid', rfl, ?_, ?_⟩
+    · intro m hm; exact absurd hm.1 (openTree_nil P _ _)
+    · intro h
+      simp only at h ⊢
+      intro h0
+      rw [h0] at h
+      simp at h
+  · rw [signed_ne_nil hs] at hr
+    simp only [Bool.false_eq_true, if_false, hvs, hs.1] at hr
+    have hsame : ∀ m', Signed P D S msg m' → m' = m := by
+      intro m' hs'
+      have := hs'.1.symm.trans hs.1
+      simp only [Except.ok.injEq, Head.mk.injEq] at this
+      exact this.1
+    by_cases hle : m ≤ w.c.latest.n
+    · rw [if_pos hle] at hr
+      rw [hlat] at hr hle
+      obtain ⟨h1, h2, h3⟩ := checkTrees_honest P D S stN hon w hw hname m n hle hn msg w.c.latestMsg
+      rw [h1] at hr; simp only at hr; subst hr
+      refine ⟨_, rfl, h2, h3.mid', h3.cfg, ?_, ?_⟩
+      · intro m' hs'
+        rw [hsame m' hs']
+        simp only
+        rw [h3.latest, hlat]; exact hle
+      · intro hp
+        simp only at hp ⊢
+        rw [h3.latest, hlat]
+        simp only
+        split at hp
+        · omega
+        · cases hp
+    · rw [if_neg hle] at hr
+      rw [hlat] at hr hle
+      simp only at hle
+      obtain ⟨h1, h2, h3⟩ := checkTrees_honest P D S stN hon w hw hname n m (by omega) hs.2 w.c.latestMsg msg
+      rw [h1] at hr; simp only at hr; subst hr
+      refine ⟨_, rfl, ⟨⟨m, hs.2, rfl, fun _ => hs⟩, h2.cfg, h2.cache, h2.tileCache, h2.record⟩,
+        ⟨h3.verifiers, h3.name, h3.record, h3.inited, by rw [hlat]; simp only; omega⟩, h3.cfg, ?_, ?_⟩
+      · intro m' hs'
+        rw [hsame m' hs']
+        exact Nat.le_refl _
+      · intro hp; cases hp
+
+theorem B_latest : B "/latest" = [47, 108, 97, 116, 101, 115, 116] := by decide +kernel
+theorem B_key : B "key" = [107, 101, 121] := by decide +kernel
+
+theorem latestFile_ne_key (name : Bytes) : latestFile name ≠ B "key" := by
+  intro h
+  have := congrArg List.length h
+  rw [latestFile, B_latest, B_key] at this
+  simp at this
+
+/-- `WriteConfig(name/latest, old, new)` with `old` the stored value: the compare-and-swap succeeds -/
+theorem writeConfig_cas (S : Server) (x : World HState H) (old new : Bytes) (h : x.s.latest = old) :
+    writeConfig (honestEnv S) x (latestFile S.v.name) old new =
+      (.ok, { s := { x.s with latest := new }, c := x.c,
+              tr := x.tr ++ [.writeConfig (latestFile S.v.name) old new .ok] }) := by
+  simp only [writeConfig, honestEnv, h, and_self, if_true]
+
+/-- the configuration loop of `mergeLatest`, honest world: one round (no write conflict) -/
+theorem mergeLatestLoop_honest (P : Params H) (D : List Bytes) (S : Server) (stN : List H) (hon : Honest P D S stN)
+    (f : Nat) (w : World HState H) (hw : HW P D S stN w) (hname : w.c.name = S.v.name) (hvs : w.c.verifiers = [S.v]) :
+    (mergeLatestLoop P (honestEnv S) (f + 1) w).1 = .ok () ∧
+      HW P D S stN (mergeLatestLoop P (honestEnv S) (f + 1) w).2 ∧ HMid w (mergeLatestLoop P (honestEnv S) (f + 1) w).2 := by
+  generalize hr : mergeLatestLoop P (honestEnv S) (f + 1) w = r
+  simp only [mergeLatestLoop] at hr
+  -- ReadConfig(name/latest) returns the stored head
+  have hrc : readConfig (honestEnv S) w (latestFile w.c.name) =
+      (some w.s.latest, { w with tr := w.tr ++ [.read .config (latestFile w.c.name) true] }) := by
+    simp only [readConfig, honestEnv, hname, latestFile_ne_key, if_false, if_true, Option.isSome_some]
+  rw [hrc] at hr; simp only at hr
+  have hw0 : HW P D S stN ({ w with tr := w.tr ++ [.read .config (latestFile w.c.name) true] } : World HState H) :=
+    ⟨hw.latest, hw.cfg, hw.cache, hw.tileCache, hw.record⟩
+  have hl0 : HLow w ({ w with tr := w.tr ++ [.read .config (latestFile w.c.name) true] } : World HState H) :=
+    ⟨rfl, rfl, rfl, rfl, rfl, rfl, rfl⟩
+  obtain ⟨wh, h1, h2, h3, h4, _, h6⟩ := mergeLatestMem_honest P D S stN hon _ hw0 hname hvs w.s.latest hw.cfg
+  rw [h1] at hr; simp only at hr
+  by_cases hp : (wh != When.past) = true
+  · rw [if_pos hp] at hr; subst hr; exact ⟨rfl, h2, hl0.mid'.trans h3⟩
+  · rw [if_neg hp] at hr
+    have hwp : wh = .past := by simpa using hp
+    have hn0 := h6 hwp
+    obtain ⟨n, hn, hlat, hlm⟩ := h2.latest
+    have hname2 : (mergeLatestMem P (honestEnv S) ({ w with tr := w.tr ++ [.read .config (latestFile w.c.name) true] } : World HState H)
+        w.s.latest).2.c.name = S.v.name := by rw [h3.name]; exact hname
+    -- WriteConfig is a compare-and-swap on the value just read: it succeeds
+    rw [hname2, writeConfig_cas S _ _ _ h4] at hr
+    simp only at hr; subst hr
+    have hn' : n ≠ 0 := by rw [hlat] at hn0; exact hn0
+    exact ⟨rfl, ⟨⟨n, hn, hlat, hlm⟩, Or.inr ⟨n, hlm hn'⟩, h2.cache, h2.tileCache, h2.record⟩,
+      (hl0.mid'.trans h3).trans ⟨rfl, rfl, rfl, rfl, Nat.le_refl _⟩⟩
+
+/-- `mergeLatest`, honest world -/
+theorem mergeLatest_honest (P : Params H) (D : List Bytes) (S : Server) (stN : List H) (hon : Honest P D S stN)
+    (w : World HState H) (hw : HW P D S stN w) (hname : w.c.name = S.v.name) (hvs : w.c.verifiers = [S.v])
+    (msg : Bytes) (hmsg : msg = [] ∨ ∃ m, Signed P D S msg m) :
+    (mergeLatest P (honestEnv S) w msg).1 = .ok () ∧
+      HW P D S stN (mergeLatest P (honestEnv S) w msg).2 ∧ HMid w (mergeLatest P (honestEnv S) w msg).2 ∧
+      (∀ m, Signed P D S msg m → m ≤ (mergeLatest P (honestEnv S) w msg).2.c.latest.n) := by
+  obtain ⟨wh, h1, h2, h3, _, h5, _⟩ := mergeLatestMem_honest P D S stN hon w hw hname hvs msg hmsg
+  generalize hr : mergeLatest P (honestEnv S) w msg = r
+  simp only [mergeLatest, h1] at hr
+  by_cases hf : (wh != When.future) = true
+  · rw [if_pos hf] at hr; subst hr; exact ⟨rfl, h2, h3, h5⟩
+  · rw [if_neg hf] at hr; subst hr
+    obtain ⟨k, hk⟩ : ∃ k, P.retries = k + 1 := ⟨P.retries - 1, by have := hon.hret; omega⟩
+    rw [hk]
+    obtain ⟨g1, g2, g3⟩ := mergeLatestLoop_honest P D S stN hon k _ h2 (by rw [h3.name]; exact hname)
+      (by rw [h3.verifiers]; exact hvs)
+    exact ⟨g1, g2, h3.trans g3, fun m hm => Nat.le_trans (h5 m hm) g3.mono⟩
+
+/-- `initWork`, honest world: initialisation succeeds -/
+theorem initWork_honest (P : Params H) (D : List Bytes) (S : Server) (stN : List H) (hon : Honest P D S stN)
+    (w : World HState H) (hw : HW P D S stN w) :
+    HW P D S stN (initWork P (honestEnv S) w) ∧ (initWork P (honestEnv S) w).c.inited = some none ∧
+      (initWork P (honestEnv S) w).c.verifiers = [S.v] ∧ (initWork P (honestEnv S) w).c.name = S.v.name ∧
+      (initWork P (honestEnv S) w).c.record = w.c.record := by
+  generalize hr : initWork P (honestEnv S) w = r
+  simp only [initWork] at hr
+  have hrk : readConfig (honestEnv S) w (B "key") =
+      (some S.keyFile, { w with tr := w.tr ++ [.read .config (B "key") true] }) := by
+    simp only [readConfig, honestEnv, if_true, Option.isSome_some]
+  rw [hrk] at hr; simp only [hon.hkey] at hr
+  have hrl : ∀ (c1 : Client H) (tr1 : List Effect), readConfig (honestEnv S) (World.mk w.s c1 tr1) (latestFile S.v.name) =
+      (some w.s.latest, World.mk w.s c1 (tr1 ++ [.read .config (latestFile S.v.name) true])) := by
+    intro c1 tr1
+    simp only [readConfig, honestEnv, latestFile_ne_key, if_false, if_true, Option.isSome_some]
+  rw [hrl] at hr; simp only at hr
+  have hw1 : ∀ tr1, HW P D S stN (World.mk w.s ({ w.c with verifiers := [S.v], name := S.v.name } : Client H) tr1) :=
+    fun _ => ⟨hw.latest, hw.cfg, hw.cache, hw.tileCache, hw.record⟩
+  obtain ⟨g1, g2, g3, _⟩ := mergeLatest_honest P D S stN hon _ (hw1 _) rfl rfl w.s.latest hw.cfg
+  rw [g1] at hr; simp only at hr; subst hr
+  exact ⟨⟨g2.latest, g2.cfg, g2.cache, g2.tileCache, g2.record⟩, rfl, g3.verifiers, g3.name, g3.record⟩
+
+/-- `checkRecord` of a genuine record below the head, honest world -/
+theorem checkRecord_honest (P : Params H) (D : List Bytes) (S : Server) (stN : List H) (hon : Honest P D S stN)
+    (w : World HState H) (hw : HW P D S stN w) (hname : w.c.name = S.v.name) (id : Nat) (text : Bytes)
+    (hid : id < w.c.latest.n) (htext : D[id]? = some text) :
+    (checkRecord P (honestEnv S) w (id : Int) text).1 = .ok () ∧
+      HW P D S stN (checkRecord P (honestEnv S) w (id : Int) text).2 ∧
+      HLow w (checkRecord P (honestEnv S) w (id : Int) text).2 := by
+  obtain ⟨n, hn, hlat, _⟩ := hw.latest
+  have hN := hon.hN
+  rw [hlat] at hid
+  simp only at hid
+  generalize hr : checkRecord P (honestEnv S) w (id : Int) text = r
+  simp only [checkRecord] at hr
+  rw [hlat] at hr
+  have h1 : ¬ ((id : Int) ≥ ((n : Nat) : Int)) := by omega
+  have h2 : ¬ ((id : Int) < 0) := by omega
+  simp only [h1, h2, if_false, Int.toNat_natCast] at hr
+  have hidx : ∀ x ∈ [storedHashIndex 0 id], x < storedHashIndex 0 n := by
+    intro x hx
+    simp only [List.mem_singleton] at hx
+    subst hx
+    rw [Tlog.storedHashIndex_zero_eq n]
+    exact TileAuth.idx_lt_S n 0 id (by omega)
+  obtain ⟨hs, stn, g1, hstn, hmap, g2, g3⟩ := readHashes_honest P D S stN hon w hw hname n (by omega) hn _ hidx
+  rw [g1] at hr; simp only at hr
+  obtain ⟨b, hb, hbs⟩ := mapM_single _ _ _ hmap
+  subst hbs
+  simp only at hr
+  have hlen : (D.take n).length = n := by rw [List.length_take]; exact Nat.min_eq_left hn
+  have h64 : (2:Nat) ^ 62 < 2 ^ 64 := by decide
+  have hget := Props.C09.store_get P.leaf P.node P.empty (D.take n) (by rw [hlen]; omega) stn hstn 0 id (by rw [hlen]; omega)
+  rw [hb] at hget
+  have hjl : id < ((D.take n).map P.leaf).length := by rw [List.length_map, hlen]; exact hid
+  rw [TlogStore.leavesOf_zero _ _ hjl] at hget
+  simp only [TlogStore.mth_singleton, Option.some.injEq] at hget
+  have hidD : id < D.length := by omega
+  have htx : D[id] = text := by
+    rw [List.getElem?_eq_getElem hidD] at htext
+    exact Option.some.inj htext
+  have hbt : b = P.leaf text := by
+    rw [hget]
+    simp [List.getElem_take, htx]
+  rw [if_pos hbt] at hr
+  subst hr
+  exact ⟨rfl, g2, g3⟩
+
+/-- the validation part of `lookupWork` on an honest response, honest world -/
+theorem lookupValidate_honest (P : Params H) (D : List Bytes) (S : Server) (stN : List H) (hon : Honest P D S stN)
+    (w : World HState H) (hw : HW P D S stN w) (hname : w.c.name = S.v.name) (hvs : w.c.verifiers = [S.v])
+    (rest data : Bytes) (hd : HonestLookup P D S (B "/lookup/" ++ rest) data) (wc : Bool)
+    (r : Except Err Bytes × World HState H)
+    (hr : (match TlogNote.parseRecord data with
+      | none => (Except.error Err.recordSyntax, w)
+      | some (id, text, treeMsg) =>
+        match (mergeLatest P (honestEnv S) w treeMsg).1 with
+        | .error e => (.error e, (mergeLatest P (honestEnv S) w treeMsg).2)
+        | .ok () =>
+          match (checkRecord P (honestEnv S) (mergeLatest P (honestEnv S) w treeMsg).2 id text).1 with
+          | .error e => (.error e, (checkRecord P (honestEnv S) (mergeLatest P (honestEnv S) w treeMsg).2 id text).2)
+          | .ok () =>
+            (.ok data, if wc then writeCache (honestEnv S) (checkRecord P (honestEnv S) (mergeLatest P (honestEnv S) w treeMsg).2 id text).2
+                (S.v.name ++ (B "/lookup/" ++ rest)) data
+              else (checkRecord P (honestEnv S) (mergeLatest P (honestEnv S) w treeMsg).2 id text).2)) = r) :
+    r.1 = .ok data ∧ HW P D S stN r.2 ∧ HMid w r.2 := by
+  obtain ⟨id, n, head, text, hidn, hsig, htext, hparse, _⟩ := hd
+  rw [hparse] at hr; simp only at hr
+  obtain ⟨g1, g2, g3, g4⟩ := mergeLatest_honest P D S stN hon w hw hname hvs head (Or.inr ⟨n, hsig⟩)
+  rw [g1] at hr; simp only at hr
+  have hname2 : (mergeLatest P (honestEnv S) w head).2.c.name = S.v.name := by rw [g3.name]; exact hname
+  obtain ⟨k1, k2, k3⟩ := checkRecord_honest P D S stN hon _ g2 hname2 id text (by have := g4 n hsig; omega) htext
+  rw [k1] at hr; simp only at hr
+  cases wc with
+  | false =>
+    simp only [Bool.false_eq_true, if_false] at hr; subst hr
+    exact ⟨rfl, k2, g3.trans k3.mid'⟩
+  | true =>
+    simp only [if_true] at hr; subst hr
+    refine ⟨rfl, ⟨k2.latest, k2.cfg, ?_, k2.tileCache, k2.record⟩, g3.trans k3.mid'⟩
+    intro f d' hf
+    simp only [writeCache, honestEnv, List.lookup] at hf
+    split at hf
+    · cases hf
+      rename_i heq
+      have : f = S.v.name ++ (B "/lookup/" ++ rest) := by simpa using heq
+      subst this
+      exact Or.inr ⟨rest, rfl, ⟨id, n, head, text, hidn, hsig, htext, hparse, by assumption⟩⟩
+    · exact k2.cache f d' hf
+
 end
 end ModVerif.Client
